@@ -19,13 +19,34 @@ class ModInfo:
         self.path = path
         self.relpath = relpath
         self.source = source
-        self.tree = ast.parse(source, filename=path)
-        for node in ast.walk(self.tree):
-            for child in ast.iter_child_nodes(node):
-                child.parent = node
-        self.tree.parent = None
-        for node in ast.walk(self.tree):
-            node.modname = name
+        self.raw_tree = ast.parse(source, filename=path)
+        _annotate(self.raw_tree, name)
+        self._tree = None
+        self.normalised = []
+
+    @property
+    def tree(self):
+        """the tree the matching rules see: normalised towards the reference shape (xoverif/normalize.py), lazily;
+        the partial evaluator interprets raw_tree"""
+        if self._tree is None:
+            from .normalize import normalize_tree
+
+            t, log = normalize_tree(self.raw_tree, self.name)
+            if log:
+                _annotate(t, self.name)
+                self._tree, self.normalised = t, log
+            else:
+                self._tree = self.raw_tree
+        return self._tree
+
+
+def _annotate(tree, name):
+    for node in ast.walk(tree):
+        for child in ast.iter_child_nodes(node):
+            child.parent = node
+    tree.parent = None
+    for node in ast.walk(tree):
+        node.modname = name
 
 
 def norm(node):
@@ -278,3 +299,31 @@ def get_arg(call, pos, name):
 def param_names(func):
     a = func.args
     return [x.arg for x in a.posonlyargs + a.args] + [x.arg for x in a.kwonlyargs]
+
+
+def str_template(e):
+    """canonical form of a string-building expression: tuple of ('lit', text) / ('expr', normalised text) parts, so
+    that `f"{x}*"`, `x + "*"` and `"%s*" % x`-free concatenations compare equal"""
+    parts = []
+
+    def add(x):
+        if isinstance(x, ast.Constant) and isinstance(x.value, str):
+            if x.value:
+                if parts and parts[-1][0] == "lit":
+                    parts[-1] = ("lit", parts[-1][1] + x.value)
+                else:
+                    parts.append(("lit", x.value))
+        elif isinstance(x, ast.JoinedStr):
+            for v in x.values:
+                if isinstance(v, ast.FormattedValue) and v.conversion == -1 and v.format_spec is None:
+                    add(v.value)
+                else:
+                    add(v) if isinstance(v, ast.Constant) else parts.append(("expr", norm(v)))
+        elif isinstance(x, ast.BinOp) and isinstance(x.op, ast.Add):
+            add(x.left)
+            add(x.right)
+        else:
+            parts.append(("expr", norm(x)))
+
+    add(e)
+    return tuple(parts)
